@@ -14,6 +14,7 @@ CLAUSES = {
     "14": "completion callbacks nested deeper than MaxCallbackDispatch + 1",
     "15": "the dispatch depth accounting did not return to its base value",
     "16": "an expired timer present in the poll batch did not fire",
+    "17": "scheduling from inside the callback of a live repeating timer did not fail (and ends the repetition without Cancel or Close)",
     "21": "Pending() differs from the number of operations in flight (deferred ops + armed timers + queued posts)",
     "22": "PollOne dispatched handlers but reported a non-positive count",
     "23": "PollOne reported 0 without the timeout error",
@@ -108,10 +109,41 @@ def timer_cases(q):
     cases.append(("case", T + ["sched 0 rep 30 30", "sleep 45", "pollone", "sleep 45", "pollone", "tcancel 0", "sleep 45", "pollone"]))
     cases.append(("case", T + ["prog 30 tcancel 0", "sched 0 rep 30 30", "sleep 45", "pollone", "sleep 45", "pollone", "sched 0 once 20 32", "sleep 40", "pollone"]))
     cases.append(("case", T + ["sched 0 rep 30 30", "sleep 45", "pollone", "tclose 0", "sleep 45", "pollone"]))
+    # a repeating timer's own callback re-arms the timer and then cancels it (and the other orders)
+    cases.append(("case", T + ["prog 30 sched 0 once 400 31 ; tcancel 0", "sched 0 rep 30 30", "sleep 45", "pollone", "sleep 45", "pollone", "sleep 45", "pollone", "tcancel 0"]))
+    cases.append(("case", T + ["prog 30 sched 0 rep 400 31 ; tcancel 0", "sched 0 rep 30 30", "sleep 45", "pollone", "sleep 45", "pollone", "tcancel 0"]))
+    cases.append(("case", T + ["prog 30 tcancel 0 ; sched 0 once 30 32", "sched 0 rep 30 30", "sleep 45", "pollone", "sleep 45", "pollone", "sleep 45", "pollone", "tcancel 0"]))
+    cases.append(("case", T + ["prog 30 sched 0 once 30 32", "sched 0 rep 30 30", "sleep 45", "pollone", "sleep 45", "pollone", "sleep 45", "pollone", "tcancel 0"]))
+    cases.append(("case", T + ["prog 30 sched 0 once 400 31 ; tcancel 0 ; sched 0 once 30 32", "sched 0 once 30 30", "sleep 45", "pollone", "sleep 45", "pollone", "tcancel 0"]))
+    cases.append(("case", T + ["prog 30 tclose 0", "sched 0 rep 30 30", "sleep 45", "pollone", "sleep 45", "pollone", "sched 0 once 20 31"]))
     # timer and I/O object ready in the same batch, each handler touching the other
     cases.append(("case", ["obj 0 sock"] + T + ["prog %d tcancel 0 ; sched 0 once 400 30" % rd(0), "start read 0 4 %d" % rd(0), "sched 0 once 20 30",
                                                 "peer 0 data 4", "sleep 40", "pollone", "pollone", "tcancel 0"]))
     cases.append(("case", ["obj 0 sock"] + T + ["prog 30 cancel 0", "start read 0 4 %d" % rd(0), "sched 0 once 20 30", "sleep 40", "peer 0 data 4", "pollone", "pollone"]))
+    return cases
+
+
+TIMER_ACTS = ["tcancel 0", "tcancel 1", "tclose 1", "sched 0 once 30 32", "sched 1 once 30 33", "sched 0 once 400 32", "sched 1 rep 30 33",
+              "sched 0 rep 400 32", "post 40"]
+
+
+def timer_random(rng, n):
+    """random handler programs over two timers (own and the other timer), once and repeating, with real sleeps"""
+    cases = []
+    for _ in range(n):
+        ops = ["timer 0", "timer 1"]
+        for cb in (30, 31):
+            k = rng.choice([0, 1, 1, 2, 3])
+            if k:
+                ops.append("prog %d %s" % (cb, " ; ".join(rng.choice(TIMER_ACTS) for _ in range(k))))
+        ops.append("sched 0 %s 30 30" % rng.choice(["once", "rep"]))
+        ops.append("sched 1 %s 30 31" % rng.choice(["once", "rep"]))
+        for _ in range(rng.randint(2, 4)):
+            ops += ["sleep 45", "pollone"]
+            if rng.random() < 0.3:
+                ops.append(rng.choice(TIMER_ACTS[:8]))
+        ops += ["tcancel 0", "tcancel 1", "sleep 45", "pollone"]
+        cases.append(("case", ops))
     return cases
 
 
